@@ -885,3 +885,22 @@ def R_tailloopbreak(toks):
         if t.kind == "ident" and t.text == "break" and out[idx+1].text != ";" and out[idx+1].kind != "lifetime":
             out[idx] = _mk(["return"], t, t.pre)[0]; n += 1
     return out, n
+
+def R_pollq(toks):
+    """`std::task::ready!(E?)` — `?` on a `Poll<Option<Result<T, E>>>` inside `ready!` — is read as `ready_q!(E)`, a macro of the unit
+    that writes both expansions out as std defines them: `Poll::Pending` → `return Poll::Pending`; `Poll::Ready(Some(Err(e)))` →
+    `return Poll::Ready(Some(Err(e)))` (the error type is the same on both sides); otherwise the `Option<T>` inside `Ready`.
+    (Verus takes `?` on Result and Option only.)"""
+    pat = ["std", ":", ":", "task", ":", ":", "ready", "!", "("]
+    out = []; n = 0; i = 0
+    while i < len(toks):
+        if [x.text for x in toks[i:i+len(pat)]] == pat:
+            close = match_close(toks, i + len(pat) - 1)
+            if toks[close-1].text == "?":
+                new, _ = tokenize("ready_q!(")
+                for x in new: x.line = toks[i].line
+                new[0].pre = toks[i].pre
+                out.extend(new); out.extend(toks[i+len(pat):close-1]); out.append(toks[close])
+                i = close + 1; n += 1; continue
+        out.append(toks[i]); i += 1
+    return out, n
